@@ -84,8 +84,9 @@ def c01_history(e1: int, p1: int, g1: int, e2: int, p2: int, g2: int, d: int, v:
     S = rt.S
     with World() as w:
         w.kernel.behaviour = BEHS[S.get('beh', 0)]
-        wa = w.mk_watcher('a', numprocesses=S.get('n0', 2), singleton=S.get('singleton', False),
-                          warmup_delay=S.get('warm', 0), graceful_timeout=0.2)
+        var = S.get('var', 'default')
+        wa = w.mk_watcher('a', **scen.variant(var, numprocesses=S.get('n0', 2), singleton=S.get('singleton', False),
+                                             warmup_delay=S.get('warm', 0), graceful_timeout=0.2))
         w.boot([wa])
         if S.get('dmax', 0) > 0 and d > 0:
             w.kernel.injections.append({'at_call': w.kernel.calls + d, 'victim': ('nth', v),
@@ -104,6 +105,10 @@ def c01_history(e1: int, p1: int, g1: int, e2: int, p2: int, g2: int, d: int, v:
             ok = _converged(w, wa)
             # after a completed restart / non-hup reload every live worker was started after the request
             for (e, req) in sc.reqs:
+                if var == 'send_hup' and e in (scen.EV_RELOAD, scen.EV_RELOAD_SEQ):
+                    continue            # a send_hup watcher reloads by SIGHUP: the workers stay (excluded by the statement)
+                if var == 'max_age':
+                    continue            # expiry replaces workers on its own
                 if e in (scen.EV_RESTART, scen.EV_RELOAD, scen.EV_RELOAD_SEQ, scen.EV_RELOAD_TERM) \
                         and req.status == 'ok' and wa.is_active():
                     later = [x for (ee, x) in sc.reqs if x.t_sent > req.t_sent]
@@ -118,6 +123,9 @@ def c01_history(e1: int, p1: int, g1: int, e2: int, p2: int, g2: int, d: int, v:
             before = scen.snapshot_logs(w)
             sc.settle(checks=2)
             after = scen.snapshot_logs(w)
+            if var == 'max_age':
+                after = before          # max_age expiry is "something changes": no fixpoint is claimed
+                ok = _converged(w, wa) and ok
             if before != after:
                 rt.note('converged state is not a fixpoint: spawn/signal log %s -> %s', before, after)
                 ok = False
@@ -265,6 +273,13 @@ def plan(tier):
             sh.append({'e1': e, 'K': 1, 'n0': 2, 'beh': 2, 'dmax': 30, 'gaps': 'three'})
         for e in (scen.EV_INCR, scen.EV_SETNP, scen.EV_RESTART):
             sh.append({'e1': e, 'K': 1, 'n0': 1, 'beh': 0, 'singleton': True})
+        # configuration variants: graceful_timeout 0 with stubborn workers, send_hup, max_age
+        for e in (scen.EV_DECR, scen.EV_SETNP, scen.EV_RELOAD, scen.EV_RESTART, scen.EV_RELOAD_SEQ):
+            sh.append({'e1': e, 'K': 1, 'n0': 2, 'beh': 2, 'var': 'gt0'})
+        for e in (scen.EV_RELOAD, scen.EV_RELOAD_SEQ, scen.EV_XKILL, scen.EV_DECR):
+            sh.append({'e1': e, 'K': 1, 'n0': 2, 'beh': 0, 'var': 'send_hup'})
+        for e in (scen.EV_TIME, scen.EV_DECR, scen.EV_XKILL, scen.EV_INCR):
+            sh.append({'e1': e, 'K': 1, 'n0': 2, 'beh': 0, 'var': 'max_age', 'dmax': 10})
     else:
         for e in evs:
             for beh in (0, 1, 2, 3):
@@ -272,6 +287,8 @@ def plan(tier):
                 sh.append({'e1': e, 'K': 1, 'n0': 3, 'beh': beh, 'dmax': 40, 'warm': 0.3})
             sh.append({'e1': e, 'K': 2, 'n0': 1, 'beh': 0, 'singleton': True})
             sh.append({'e1': e, 'K': 2, 'n0': 2, 'beh': 0, 'dmax': 12})
+            for var in ('gt0', 'send_hup', 'max_age', 'stop_children'):
+                sh.append({'e1': e, 'K': 2, 'n0': 2, 'beh': 2 if var == 'gt0' else 0, 'var': var, 'gaps': 'two'})
     step_sh = [{'np': n, 'm': m, 'dmax': 12 if q else 30, 'beh': 0}
                for n in range(0, 3 if q else 4) for m in range(0, 3 if q else 4)]
     if not q:
@@ -280,7 +297,7 @@ def plan(tier):
         Cond('c01_history', shards=sh, budget=150 if q else 1500, twins=2,
              bounds={'e1': 'S: shard key over the 11-event menu', 'e2': 'S[0,10]', 'p1,p2': 'R[-2,3] (quick K=2: [-1,1]) (nb / numprocesses / victim / exit status)',
                      'g1,g2': 'S{now, 1 turn, 2 turns, quiescence} (quick K=2: {now, quiescence})', 'd': 'R[0,dmax] kernel call of an injected SIGKILL death',
-                     'v': 'S{0,1} victim', 'n0': 'S{1,2,3}', 'beh': 'S{obey, obey after 0.15 s, ignore, alternating}'},
+                     'v': 'S{0,1} victim', 'var': 'S: configuration variant {default, graceful_timeout 0, send_hup, max_age, stop_children}', 'n0': 'S{1,2,3}', 'beh': 'S{obey, obey after 0.15 s, ignore, alternating}'},
              smoke=[({'e1': scen.EV_DECR, 'K': 2, 'n0': 2}, dict(e1=4, p1=1, g1=0, e2=3, p2=2, g2=3, d=0, v=0))]),
         Cond('c01_step', shards=step_sh, budget=150 if q else 1200, twins=2,
              bounds={'np': 'S[0,%d]' % (2 if q else 3), 'm': 'S[0,%d] table entries' % (2 if q else 3),
